@@ -18,13 +18,14 @@ Definition compound_kw (l : str) : option str :=
 Definition indent_kw (l : str) : option str :=
   first_prefix [s2l "def"; s2l "class"; s2l "else"; s2l "elif"; s2l "except"; s2l "finally"] (lstrip_s l).
 
-Fixpoint has_colon_on_line (l : str) : bool :=
-  match l with c :: r => if c =? LF then false else (c =? 58) || has_colon_on_line r | [] => false end.
-(* the printer's _re_unindentor: leading whitespace, else / elif / except / finally, then a colon later on the line *)
+(* (after fix ea5ddf9 the printer's expression crosses the newline of a backslash-continued control line) *)
+Fixpoint has_colon_later (l : str) : bool :=
+  match l with c :: r => (c =? 58) || has_colon_later r | [] => false end.
+(* the printer's _re_unindentor: leading whitespace, else / elif / except / finally, then a colon later in the text of the line *)
 Definition re_unindentor (l : str) : bool :=
   let t := lstrip_s l in
   match first_prefix [s2l "else"; s2l "elif"; s2l "except"; s2l "finally"] t with
-  | Some k => has_colon_on_line (skipn (length k) t)
+  | Some k => has_colon_later (skipn (length k) t)
   | None => false
   end.
 
